@@ -183,6 +183,11 @@ SHAPES = [
     ("redir-mid", lambda n: " | ".join(["vp_argv a @0", "vp_io L @0 2> f1"] + ["vp_st flt %d @0" % i for i in range(2, n)])),
     ("builtin-mid", lambda n: " | ".join(["vp_argv a @0", "alias"] + ["vp_st flt %d @0" % i for i in range(2, n)])),
     ("builtin-alone-redir", lambda n: "alias > f1 2> f2"),
+    # a builtin that prints on stdout with only its stderr redirected (and the other way round): the target is opened first,
+    # then the other stream is dupped
+    ("builtin-alone-stderr-only", lambda n: "alias 2> f2"),
+    ("builtin-alone-stdout-only", lambda n: "minfd > f1"),
+    ("builtin-alone-dups", lambda n: "alias 2> f2 1>&2"),
     ("capture-here", lambda n: "vp_argv $(" + " | ".join(["vp_out K @0"] + ["vp_io H @0 <<< w"] * (n - 1)) + ") @0"),
 ]
 
